@@ -157,6 +157,9 @@ func init() {
 		}
 		validCmd := func(max int) string {
 			k := rng.Intn(max + 1)
+			if rng.Intn(30) == 0 {
+				k = 40 + rng.Intn(300) // the grammar puts no bound on the length of a command
+			}
 			if k == 0 {
 				return "/"
 			}
